@@ -19,6 +19,7 @@ pub struct Accept {
     pub deadlocked: bool,
     pub all_done: bool,
     pub leak: Option<String>,
+    pub leaks: Vec<String>,
     pub results: Vec<Vec<Option<u64>>>,
 }
 
@@ -108,7 +109,7 @@ fn replay_once<'p>(p: &'p Program, hist: &[HEv], cfg: &MachineCfg, partial: bool
             any_enabled = true;
         }
     }
-    Ok(Accept { race, race_large, deadlocked: !any_enabled && !all_done, all_done, leak: if all_done { m.leak() } else { None }, results: m.results.clone() })
+    Ok(Accept { race, race_large, deadlocked: !any_enabled && !all_done, all_done, leak: if all_done { m.leak() } else { None }, leaks: if all_done { m.leaks() } else { vec![] }, results: m.results.clone() })
 }
 
 fn hidden_phase_pending(m: &Machine<'_>, t: usize) -> bool {
